@@ -10,7 +10,7 @@ from . import tu as T, cxx2c as X
 
 VERIF = T.VERIF
 CXXFLAGS = ['-std=c++17', '-O1', '-g', '-fsanitize=address,undefined', '-fsanitize=float-cast-overflow',
-            '-fno-sanitize-recover=all', '-fno-omit-frame-pointer', '-w']
+            '-fno-sanitize-recover=all', '-fno-omit-frame-pointer', '-w', '-fno-access-control']
 
 
 def obligation_name(r, f):
@@ -86,6 +86,17 @@ def _lit(ctype, v):
     return '%d' % u if u > -(1 << 31) else '(-2147483647-1)'
 
 
+def _logical_lines(text):
+    out, cur = [], ''
+    for l in text.split('\n'):
+        if l.endswith('\\'):
+            cur += l[:-1] + ' '
+        else:
+            out.append(cur + l)
+            cur = ''
+    return out
+
+
 def gen_driver(proj, r, f, fi, contract, strcap):
     """C++ driver text, or None if the job has no generic replay (custom harness without in_* inputs)"""
     inp = f.get('trace_inputs') or {}
@@ -106,6 +117,9 @@ def gen_driver(proj, r, f, fi, contract, strcap):
     for k in ('verif_ghost_idx', 'verif_ghost_idx2', 'verif_ghost_idx3', 'verif_ghost_idx4'):
         if k in inp:
             L.append('  %s = %dULL;' % (k, _bits(inp[k])))
+    for k in ('verif_ghost_int', 'verif_ghost_int2'):
+        if k in inp:
+            L.append('  %s = %s;' % (k, _lit('int', inp[k])))
     call_args = []
     post = []
     if fi.is_method:
@@ -160,6 +174,22 @@ def gen_driver(proj, r, f, fi, contract, strcap):
         for m in re.finditer(r'__CPROVER_ensures\s*\(', txt):
             e = X.match_close(txt, m.end() - 1)
             ens.append((c[3], txt[m.end():e]))
+    # expand the contract's own macros first (they may hide __CPROVER_old / __CPROVER_return_value)
+    try:
+        gtxt = re.sub(r'^#line.*$', '', contract.emit_ghost(), flags=re.M)
+        defs = '\n'.join(l for l in _logical_lines(gtxt) if l.lstrip().startswith('#'))
+        probe = defs + '\n' + '\n'.join('VERIF_CLAUSE_%d: %s' % (k, ' '.join(e.split())) for k, (cid, e) in enumerate(ens)) + '\n'
+        pp = subprocess.run(['gcc', '-E', '-P', '-x', 'c', '-'], input=probe.encode(), stdout=subprocess.PIPE, stderr=subprocess.PIPE)
+        if pp.returncode == 0:
+            exp = {}
+            for l in pp.stdout.decode().split('\n'):
+                m = re.match(r'VERIF_CLAUSE_(\d+): (.*)$', l)
+                if m:
+                    exp[int(m.group(1))] = m.group(2)
+            if len(exp) == len(ens):
+                ens = [(cid, exp[k]) for k, (cid, e) in enumerate(ens)]
+    except Exception:
+        pass
     olds = []
     ens2 = []
     for cid, e in ens:
